@@ -5,6 +5,7 @@
 package c13
 
 import (
+	"verif/internal/checks/fx"
 	"bytes"
 	"fmt"
 	"math/big"
@@ -317,6 +318,13 @@ func Run(r *ev.Run, tier string) (evals, nontrivial int64) {
 				nontrivial++
 			}
 		}
+	}
+	// --- clients with update histories: BSC across an epoch with a validator-set switch (recent signers, pending
+	// validators), ETH after a fork and a branch switch (header index, main-chain roots), TSS after updates
+	{
+		_, c := fx.Clients()
+		report("clients after update histories (bsc set switch, eth fork, tss)", RoundTrip(c, c.ReadCtx(), dst, "clients/histories"), nil)
+		nontrivial++
 	}
 	// --- aggregate registry and rvesting parameters
 	for i, p := range aggregateStates(h) {
